@@ -410,7 +410,7 @@ func exploreCases(o *hx.Out) {
 	lines := []string{"explore ll 0 1 1 1", "explore ll 0 2 1 1", "explore ll 0 1 2 1", "explore ll 0 2 2 0", "explore ll 0 2 2 1",
 		"explore ch 0 2 2 1", "explore ch 1 2 2 1", "explore ch 2 2 2 1", "explore ch 1 2 2 2"}
 	if o.Thorough() {
-		lines = append(lines, "explore ll 0 3 2 1", "explore ll 0 2 3 1", "explore ch 1 3 3 1")
+		lines = append(lines, "explore ll 0 3 2 1", "explore ll 0 2 3 1", "explore ch 1 3 2 1", "explore ch 1 2 3 1", "explore ch 2 3 2 1") // ch 1 3 3 1 exceeds the driver's 3,000,000-state limit
 	}
 	for _, l := range lines {
 		o.Case("explore", true, l, l+" = ok")
